@@ -7,7 +7,7 @@ if [ -n "$(git status --porcelain --untracked-files=no)" ]; then echo "repo dirt
 PYTHONPATH=/repo/src /venv/bin/python "$D/demo.py" > /tmp/demo_clean.out 2>&1; C=$?
 git apply "$D/patch.diff" || { echo "patch does not apply"; exit 2; }
 PYTHONPATH=/repo/src /venv/bin/python "$D/demo.py" > /tmp/demo_mut.out 2>&1; M=$?
-cd /verif && ./check "$PID" "$@" > /tmp/check_mut.out 2>&1; RC=$?
+cd /verif && VERIF_SCRATCH_EVIDENCE=1 ./check "$PID" "$@" > /tmp/check_mut.out 2>&1; RC=$?
 git -C /repo checkout -- .
 NV=$(grep -c '^VIOLATION' /tmp/check_mut.out)
 echo "$(basename $D): demo clean=$C mutated=$M | check $PID $* -> exit $RC, $NV VIOLATION lines | $(grep 'tier=' /tmp/check_mut.out | cut -c1-160)"
